@@ -461,10 +461,12 @@ func run(c *mon.Ctx) {
 		switch {
 		case i%40 == 7:
 			// deep nesting beyond the fixed indentation strings
-			d := c.Pick(8, 40)
+			// (the writers keep 30 tabs / a fixed run of spaces at hand: depths on both sides of that, with an
+			// array or an object at any level)
+			d := []int{8, 8 + r.Intn(20), 27 + r.Intn(8), 40}[r.Intn(4)]
 			tree = int64(1)
 			for k := 0; k < d; k++ {
-				if k%2 == 0 {
+				if (i/40+k)%2 == 0 && r.Intn(4) != 0 || r.Intn(4) == 0 {
 					tree = []any{tree, "x"}
 				} else {
 					tree = map[string]any{"k": tree, "e": []any{}}
@@ -511,6 +513,9 @@ func run(c *mon.Ctx) {
 		for mask := 0; mask < 32; mask++ {
 			o := ojg.Options{Tab: mask&1 != 0, Sort: mask&2 != 0, OmitNil: mask&4 != 0, OmitEmpty: mask&8 != 0, HTMLUnsafe: mask&16 != 0, WriteLimit: 1024, InitSize: 256}
 			o.Indent = indents[(i+mask)%len(indents)]
+			if o.Indent > 8 && depthOf(tree) > 12 {
+				o.Indent = 8 // keeps the text of the deepest trees in the kilobytes
+			}
 			if (o.Indent >= 8 || o.Tab) && depthOf(tree) >= 8 {
 				c.Cover("deep-indent")
 			}
